@@ -279,7 +279,7 @@ std::string run(const std::vector<std::string> & tok)
                 {
                     data_peer & p = srv.core.peer;
                     emit("peer:" + std::to_string(p.connected) + ":" + std::to_string(p.sent) + ":" + std::to_string(p.received.size()) + ":" + std::to_string(fnv(p.received)) + ":"
-                         + std::to_string(p.saw_eof) + ":" + (p.err.empty() ? std::string("-") : p.err) + ":" + std::to_string(p.tls_ok) + ":" + std::to_string(p.reused));
+                         + std::to_string(p.saw_eof) + ":" + (p.err.empty() ? std::string("-") : p.err) + ":" + std::to_string(p.tls_ok) + ":" + std::to_string(p.reused) + ":" + std::to_string(p.saw_close_notify));
                 }
             }
         }
